@@ -4,7 +4,7 @@
    every layer / every value a source ever reported). *)
 From Coq Require Import List NArith ZArith Bool.
 From Dials Require Export Base.Outcome Base.Runes Reflect.Ty Reflect.Ptrify Reflect.Heap Copy.DeepCopy Copy.Canon
-  Copy.DeepCopySpec Stack.Overlay Stack.ComposeH Stack.History.
+  Copy.DeepCopySpec Stack.Overlay Stack.StackProofs Stack.ComposeH Stack.ComposeHTyping Stack.History.
 Import ListNotations.
 Open Scope N_scope.
 
@@ -51,8 +51,13 @@ Definition check (c : c02case) : N :=
       (* the shipped inputs must satisfy the decidable hypotheses of the theorems *)
       let rk := compute_rk hin in
       let guard_root := fun a => c03_guard_total hin n_in (rank_bound rk) (Nat.max (heap_depth hin) 1) rk (HPtr (Some a)) in
+      (* ... including, for types inside C01's universe, the full guard of compose_h_total
+         with a store typing inferred along the types *)
+      let total_guard := negb (cfg_ok fs) ||
+                         c02_guard hin n_in (rank_bound rk) (Nat.max (heap_depth hin) 1) rk
+                                   (infer_inputs hin fs d layers) fs d layers in
       if negb (wf_heapb hin n_in && (d <? n_in) && layers_below n_in layers &&
-               guard_root d && forallb guard_root layers) then 1 else
+               guard_root d && forallb guard_root layers && total_guard) then 1 else
       match impl with
       | Ok (r1, r2) =>
           match reach_of fuel H r1, reach_of fuel H r2 with
